@@ -23,7 +23,8 @@ def nlSym {St : Type} : Code St → Bool
   | .ifC _ t e => nlSym t && nlSym e
 
 theorem mem_all (st : St) : st ∈ St.all := by
-  cases st <;> simp [St.all]
+  have : St.all.contains st = true := by cases st <;> rfl
+  simpa using this
 
 /-- (1) table fact, re-checked against the regenerated table on every run -/
 theorem nl_symmetric_table : ∀ st ∈ St.all, nlSym (code st) = true := by decide +kernel
